@@ -24,7 +24,9 @@ TRUSTED = [
     "spec validation: ParamExp/ParamSpec.v is compared with /usr/bin/bash 5.2.15 (LC_ALL=C.UTF-8) on every generated case (spec_vs_bash)",
     "translator/ex_c06_paramops.py: regenerates the ordered operator literals of word.rs parameter_expression / "
     "non_posix_parameter_expression (shape-checked, fail-closed) into gen/C06ParamOps.v",
-    "exploration only (code vs bash, no model, no theorem): ${v/p/r} family, case modification, @Q @U @L @u @E @A @a @K @k @P, ${!v}, ${!prefix@}",
+    "differential only (code vs /usr/bin/bash, part of the verdict, no model, no theorem; props/c06_diff.py): ${v/p/r} family, case "
+    "modification, @Q @U @L @u @E @A @a @K @k @P, ${!v}, ${!prefix@}, every operator in the [@]/[*] x quoted/unquoted x IFS variants, "
+    "declared-empty array states x writers (:=, printf -v, m[k]=v, +=, read, (( ))) x key readers",
 ]
 ASSUMPTIONS = ["values shorter than 2^63 characters / elements (the `as i64` cast of the length is modelled as exact; hypothesis `fits`)",
                "default IFS; the operand word of - = ? + is a literal word; subscripts are integer literals or literal keys; "
@@ -248,6 +250,28 @@ def run_code(ctx, cases):
         bits = core.unhx(f[3]).decode() if len(f) > 3 else ""
         out.append((canon(int(f[0]), core.unhx(f[1])), bits))
     return out
+
+
+def run_code_raw(ctx, scripts):
+    """-> list of (stdout bytes, failed?) for whole scripts (differential part)"""
+    enc = [["shopt -s extglob\n" + s, "1", "0", "", "0"] for s in scripts]
+    out = []
+    for l in ctx.impl("c06", enc):
+        if l.startswith("PANIC"):
+            out.append((b"PANIC", True)); continue
+        f = l.split(" ")
+        if len(f) < 2 or not f[0].lstrip("-").isdigit():
+            out.append((l.encode(), True)); continue
+        out.append((core.unhx(f[1]), int(f[0]) != 0))
+    return out
+
+
+def run_bash_raw(scripts, workers=8):
+    def one(s):
+        rc, out = run_group([BASH, "--norc", "--noprofile", "-O", "extglob", "-c", "shopt -s extglob\n" + s, "brush"])
+        return (b"TIMEOUT", True) if rc is None else (out, rc != 0)
+    with ThreadPoolExecutor(workers) as ex:
+        return list(ex.map(one, scripts))
 
 
 def split_results(fields, k):
@@ -940,56 +964,11 @@ def judge(recs):
     return mism, specv, bashdis, stale, stats
 
 
-# ---------------------------------------------------------------- exploration (code vs bash only)
+# ---------------------------------------------------------------- differential part of the verdict (props/c06_diff.py)
 
-def gen_explore(ctx):
-    """${v/p/r} family, case modification, transforms, indirection, key lists: no model, no theorem"""
-    rng = ctx.rng
-    vals = ["", "abc", "aXbXc", "héllo wörld", "a b", "ab\ncd", "*a?", "AbC dEf", "a/b/c", "x'y", 'q"r', "a\\tb", "$HOME"]
-    pats = ["a", "b", "X", "*", "?", "[a-c]", "a*", "*c", "", "l", "ö", " ", "@(a|b)", "+(X)", "a|b", "*(a|ab)"]
-    reps = [None, "", "Z", "a b", "<&>"]
-    out = []
-    for v in vals:
-        for p_ in pats:
-            for kind in ["/", "//", "/#", "/%"]:
-                for r in reps:
-                    e = "${x%s%s%s}" % (kind, p_, "" if r is None else "/" + r)
-                    fam = "replace-amp" if (r and "&" in r) else ("replace-empty-pattern" if p_ == "" else "replace")
-                    out.append((fam, "x=%s\nshow \"%s\"\nprintf 'S%%s\\0' \"$?\"\n" % (q(v), e)))
-        for op in ["^", "^^", ",", ",,"]:
-            for p_ in ["", "a", "[a-c]", "?", "*", "é", "[A-Z]"]:
-                out.append(("case-mod", "x=%s\nshow \"${x%s%s}\"\nprintf 'S%%s\\0' \"$?\"\n" % (q(v), op, p_)))
-        for tr_ in "QULuEAaKkP":
-            out.append(("transform-@" + tr_, "x=%s\nshow \"${x@%s}\"\nprintf 'S%%s\\0' \"$?\"\n" % (q(v), tr_)))
-            out.append(("transform-@" + tr_ + "-array", "x=(%s b)\nshow \"${x[@]@%s}\"\nprintf 'S%%s\\0' \"$?\"\n" % (q(v), tr_)))
-            out.append(("transform-@" + tr_ + "-readonly", "declare -r x=%s\nshow \"${x@%s}\"\nprintf 'S%%s\\0' \"$?\"\n" % (q(v), tr_)))
-    for st in ["y=abc; x=y", "y=(a b); x='y[1]'", "y=(a b); x='y[@]'", "x=nope", "unset x", "x=1; set -- p q", "x='#'; set -- p q", "x='@'; set -- p q"]:
-        for e in ["${!x}", "${!x:-D}", "${!x#a}", "${!x:1}", "${!x@Q}", "${!x+W}"]:
-            out.append(("indirect", "%s\nshow \"%s\"\nprintf 'S%%s\\0' \"$?\"\n" % (st, e)))
-    for st in ["a=(p q r)", "a=([2]=x [5]=y)", "declare -A a=([k]=v)", "a=s", "unset a", "declare -a a", "a=()"]:
-        for e in ["${!a[@]}", "${!a[*]}", "${#a[@]}"]:
-            out.append(("keys", "%s\nshow \"%s\"\nprintf 'S%%s\\0' \"$?\"\n" % (st, e)))
-    for st in ["ab1=1 ab2=2 abc=3", "unset ab"]:
-        for e in ["${!ab@}", "${!ab*}", "${!zz@}"]:
-            out.append(("prefix-names", "%s\nshow \"%s\"\nprintf 'S%%s\\0' \"$?\"\n" % (st, e)))
-    if ctx.quick:
-        out = rng.sample(out, min(len(out), 400))
-    return out
-
-
-def explore(ctx):
-    cases = gen_explore(ctx)
-    code = run_code(ctx, [(s, None, []) for _, s in cases])
-    bash = run_bash([s for _, s in cases])
-    by = {}
-    for (fam, s), (c, _), b in zip(cases, code, bash):
-        d = by.setdefault(fam, {"cases": 0, "differ": 0, "examples": []})
-        d["cases"] += 1
-        if c != b:
-            d["differ"] += 1
-            if len(d["examples"]) < 3:
-                d["examples"].append({"script": s, "code": c, "bash": b})
-    return {"cases": len(cases), "by_family": by}
+def differential(ctx):
+    from props import c06_diff
+    return c06_diff.evaluate(ctx, lambda ss: run_code_raw(ctx, ss), run_bash_raw)
 
 
 def run(ctx):
@@ -1025,16 +1004,20 @@ def run(ctx):
     if wrong_spec:
         notes.append("%d cases where code = bash but the Coq spec differs (spec to be repaired; never reported as violations); first: %r"
                      % (len(wrong_spec), wrong_spec[0]))
-    expl = explore(ctx)
-    notes.append("exploration (code vs bash only; no model, no theorem, never part of the verdict): %d cases; differing per family: %s"
-                 % (expl["cases"], {k: "%d/%d" % (v["differ"], v["cases"]) for k, v in sorted(expl["by_family"].items())}))
+    dcases, dviol, dstats = differential(ctx)
+    specv = specv + dviol
+    notes.append("proof-backed part (Coq model + theorems + correspondence): families cond, len, sub, subev, rm, keys = %d cases. "
+                 "Differential-only part (code vs /usr/bin/bash, words counted exactly, part of the verdict, no model): %d scripts over "
+                 "replace, casemod, transform, indirect, prefix-names, keys, and cond/remove/substring/length in the [@]/[*] x quoted/unquoted/"
+                 "affixed/assignment x IFS variants, plus declared-empty array states x writers x readers (family state); differing per family: %s"
+                 % (len(cases), dstats["cases"], {k: "%d/%d" % (v["differ"], v["cases"]) for k, v in sorted(dstats["by_family"].items())}))
     known_seen = {}
     for v in specv:
         if v.get("known"):
             known_seen[v["known"]] = known_seen.get(v["known"], 0) + 1
     return {
-        "evaluations": len(cases),
-        "distinct_nontrivial": len(nontriv),
+        "evaluations": len(cases) + dstats["cases"],
+        "distinct_nontrivial": len(nontriv) + len({c.script for c in dcases}),
         "rule": "(state, reference, operator, operand) cases run as scripts `show \"${ref op operand}\"` in a fresh in-process shell, in bash, "
                 "and through the Coq model/spec. States: unset, declared-unset (declare / -a / -A), scalar, indexed (dense and sparse), "
                 "associative (<=1 key), positional lists of 0-3 words, each with and without nounset; words over an alphabet with blank, "
@@ -1046,7 +1029,7 @@ def run(ctx):
                 "reduce to the plain expansion (removal: the result differs from the value; substring/length: the parameter is set; every "
                 "conditional case). Distinct by script text.",
         "samples": [recs[0]["script"], recs[len(recs) // 2]["script"], recs[-1]["script"]],
-        "distribution": dict(dist, known_hits=known_seen, stale_hits=stale, exploration=expl["by_family"]),
+        "distribution": dict(dist, known_hits=known_seen, stale_hits=stale, differential=dstats),
         "extraction_crosscheck": {"cases": len(sample), "agree": len(sample) - xbad},
         "spec_vs_bash": dict(stats, disagreements=bashdis[:400]),
         "model_mismatches": mism,
@@ -1068,6 +1051,7 @@ def search(ctx, res):
     if ctx.runner is None:
         return {"evaluations": len(cases), "spec_violations": code_vs_bash(recs)}
     mism, specv, bashdis, stale, stats = judge(recs)
+    specv = specv + differential(ctx)[1]
     specv = [v for v in specv if not v.get("known")] + [v for v in specv if v.get("known")]
     specv.sort(key=lambda v: (bool(v.get("known")), len(v["input"]["script"])))
     return {"evaluations": len(cases), "spec_violations": specv[:5]}
@@ -1109,4 +1093,4 @@ def run_code_only(ctx):
     recs = evaluate(ctx, cases, with_model=False)
     return {"evaluations": len(cases), "distinct_nontrivial": len({r["script"] for r in recs}),
             "rule": "code vs bash only (model did not build)", "samples": [],
-            "spec_violations": code_vs_bash(recs)}
+            "spec_violations": code_vs_bash(recs) + differential(ctx)[1]}
